@@ -66,6 +66,7 @@ type Ctx struct {
 	faMemo        map[*ssa.Parameter][]*ssa.Function
 	extraCut      map[edge]bool // edges excluded for the current top-level guard query (a case split on a φ)
 	condDepth     int
+	fnArgs        map[string]fnArg            // calleeEnvV: functions handed to callees as arguments, by the name they carry in the callee env
 	condEnv       Env                         // canonCond: the frame conditions are rendered in (nil: the function's own)
 	fnSubst       map[ssa.Value]*ssa.Function // guardViaTable: function-valued fields of the current table element
 	gsMemo        map[*ssa.Global]*ssa.Slice
